@@ -31,29 +31,34 @@ GetV(s, b) ==
        ELSE o
   ELSE DoGet(s, b)
 
-Init == st \in { NewMatrix(i, AllSym, TRUE, TRUE) : i \in Impls } /\ n = 0 /\ last = Out(DefaultMatrix, << >>, NoRow) /\ want = 0
+Init == st \in { IF i = "FromFile" THEN NewFromFile(1, C1, GridOf(1), AllSym, TRUE, TRUE) ELSE NewMatrix(i, AllSym, TRUE, TRUE) : i \in Impls } /\ n = 0 /\ last = Out(DefaultMatrix, << >>, NoRow) /\ want = 0
 Step(o) == n < MaxLen /\ st' = o.st /\ last' = o /\ n' = n + 1 /\ UNCHANGED want
 Get == \E b \in ReqBins : st.gen >= 1 /\ Step(GetV(st, b))
 EnableCache == \E v \in BOOLEAN : Step(DoEnableCache(st, v))
 StoreOnlyBasic == \E v \in BOOLEAN : Step(DoStoreOnlyBasic(st, v))
 Clear == st.gen >= 1 /\ Step(DoClear(st))
-SetSwitches == \E sw \in SwChoices : Step(DoSetSwitches(st, sw))
-SetUp == \E gen \in 1..NumGens : n < MaxLen /\ st' = SetUpV(st, gen).st /\ last' = SetUpV(st, gen) /\ n' = n + 1 /\ want' = gen
+SetSwitches == \E sw \in SwChoices : st.impl = "RayTracing" /\ Step(DoSetSwitches(st, sw))
+\* FromFile: a set_up for another geometry than the stored one is refused and changes nothing
+SetUpFF == \E gen \in 1..NumGens :
+             LET o == DoSetUpFromFile(st, gen) IN
+             st.impl = "FromFile" /\ n < MaxLen /\ st' = o.st /\ last' = Out(o.st, << >>, NoRow) /\ n' = n + 1
+             /\ want' = IF o.refused THEN want ELSE gen
+SetUp == \E gen \in 1..NumGens : st.impl # "FromFile" /\ n < MaxLen /\ st' = SetUpV(st, gen).st /\ last' = SetUpV(st, gen) /\ n' = n + 1 /\ want' = gen
 \* parsing (Interpolation) sets switches and cache mode at once
 Parse == \E sw \in SwChoices : \E m \in {<<FALSE, FALSE>>, <<TRUE, TRUE>>, <<TRUE, FALSE>>} :
            st.impl = "Interpolation" /\ Step(DoParse(st, sw, m[1], m[2]))
 \* a set_up that is refused; the caller still wants its previous geometry and must set up again before use
-SetUpRefused == n < MaxLen /\ st' = DoSetUpRefused(st).st /\ last' = DoSetUpRefused(st) /\ n' = n + 1 /\ want' = -1
-Next == Get \/ EnableCache \/ StoreOnlyBasic \/ Clear \/ SetSwitches \/ SetUp \/ Parse \/ SetUpRefused
+SetUpRefused == st.impl = "RayTracing" /\ n < MaxLen /\ st' = DoSetUpRefused(st).st /\ last' = DoSetUpRefused(st) /\ n' = n + 1 /\ want' = -1
+Next == Get \/ EnableCache \/ StoreOnlyBasic \/ Clear \/ SetSwitches \/ SetUp \/ SetUpFF \/ Parse \/ SetUpRefused
 Spec == Init /\ [][Next]_<<st, n, last, want>>
 View == <<st, n, want>>
 
 InvCache == CacheSound(st)
 InvGet == st.gen >= 1 => \A b \in ReqBins : GetCorrect(st, b) /\ GetDefined(st, b)
 \* the last call returned the row of the current geometry (or an error / no row)
-InvLast == last.ret = NoRow \/ last.ret.gen = want
+InvLast == last.ret = NoRow \/ last.ret.gen = want \/ want = -1
 \* "after setting the matrix up again for another geometry": the object is set up for the geometry asked for
-InvGen == st.gen = want
+InvGen == st.gen = want \/ (st.impl = "FromFile" /\ want = 0)
 \* a set_up that is not skipped leaves an empty cache and announces it
 InvSetUp == (last.hooks = << EvClear >>) => st.cache = {}
 \* nothing is held for use after a refused set_up
